@@ -26,6 +26,7 @@ type MapEnt struct {
 //	ttwin  TrueType with /Encoding /WinAnsiEncoding    ttmac  … /MacRomanEncoding
 //	tu1    simple font (1-byte codes) with /ToUnicode (§9.10.3) and a deliberately different /Encoding
 //	type0  Type0 /Identity-H with CIDFontType2 descendant and 2-byte /ToUnicode (§9.7)
+//	tu1bad TrueType with /ToUnicode and an embedded /FontFile2 that is no readable font program
 //	t1dstd Type1, standard-14 BaseFont, /Encoding dictionary with /Differences only => StandardEncoding is the base (Table 114)
 //	t1dwin … /Encoding << /BaseEncoding /WinAnsiEncoding /Differences […] >>   t1dmac … /MacRomanEncoding
 type FontSpec struct {
@@ -125,6 +126,7 @@ type Layout struct {
 	ResIndirect  bool  `json:"res_indirect,omitempty"` // /Resources is a reference
 	FontDictInd  bool  `json:"fontdict_ind,omitempty"` // /Font sub-dictionary is a reference
 	CIDInfoInd   bool  `json:"cidinfo_ind,omitempty"`  // /CIDSystemInfo and /Encoding dictionaries of fonts are references
+	XRefW3Zero   bool  `json:"xref_w3_zero,omitempty"` // cross-reference streams without third field (/W [1 n 0]) where every entry has the default there
 	ToUniFlate   bool  `json:"touni_flate,omitempty"`  // ToUnicode streams are Flate-compressed
 	ReuseFreed   bool  `json:"reuse_freed,omitempty"`  // new objects take freed numbers with generation+1 (§7.5.4)
 	FreeDeleted  bool  `json:"free_deleted,omitempty"` // objects that disappear are marked free (otherwise just left unreferenced)
